@@ -892,3 +892,34 @@ func init() {
 		return e.opaqueString("fmt.Sprintf")
 	}
 }
+
+// ---- package math: floats are opaque 64-bit patterns ----
+func init() {
+	id := func(e *Engine, fr *frame, fn *ssa.Function, args []Value, g *Term, pos token.Pos) Value { return args[0] }
+	intrinsics["math.Float64bits"] = id
+	intrinsics["math.Float64frombits"] = id
+	intrinsics["math.Float32bits"] = id
+	intrinsics["math.Float32frombits"] = id
+	for _, n := range []string{"Pow", "Sqrt", "Exp", "Log", "Cbrt", "Abs", "Floor", "Ceil", "Round", "Max", "Min", "Mod", "Log2", "Trunc"} {
+		nn := n
+		intrinsics["math."+n] = func(e *Engine, fr *frame, fn *ssa.Function, args []Value, g *Term, pos token.Pos) Value {
+			var ts []*Term
+			for _, a := range args {
+				ts = append(ts, a.(*Term))
+			}
+			return Apply("math."+nn, BV(64), ts...)
+		}
+	}
+	intrinsics["math.IsNaN"] = func(e *Engine, fr *frame, fn *ssa.Function, args []Value, g *Term, pos token.Pos) Value {
+		return Eq(Apply("math.IsNaN", BV(1), args[0].(*Term)), Const(1, 1))
+	}
+	intrinsics["math.IsInf"] = func(e *Engine, fr *frame, fn *ssa.Function, args []Value, g *Term, pos token.Pos) Value {
+		return Eq(Apply("math.IsInf", BV(1), args[0].(*Term), args[1].(*Term)), Const(1, 1))
+	}
+}
+
+func init() {
+	intrinsics["os.Getenv"] = func(e *Engine, fr *frame, fn *ssa.Function, args []Value, g *Term, pos token.Pos) Value {
+		return strConst("") // the environment is empty in the symbolic run
+	}
+}
